@@ -12,7 +12,7 @@ RULE = (
     "empty rows anywhere, cells beyond the parsed columns, case changes of row markers / Format value / property names / "
     "the X mark, surrounding blanks in the cells the loader strips, permuted property rows - must stay accepted and parse to "
     "the same interface (format settings, field names in order, per field class / flag / length / rule / example, check "
-    "names / classes / rules; examples are kept as typed, blanks included); (b) exactly one defect from a catalogue of ~46 structural defects (among them a blank in front of a listed value as example) applied at every "
+    "names / classes / rules; examples are kept as typed, blanks included), and the same rows added one by one through the API give the same fields and checks; (b) exactly one defect from a catalogue of ~46 structural defects (among them a blank in front of a listed value as example) applied at every "
     "applicable row must be refused with an InterfaceError whose text names that row (defects only detectable at "
     "completion are exempt from the row clause). A case is the CID text; distinct by digest; every rewrite or defect case "
     "is non-trivial."
@@ -130,6 +130,23 @@ def load(rows):
 
     cid = interface.Cid()
     cid.read("<c09>", [list(r) for r in rows])
+    return cid
+
+
+def load_through_api(rows):
+    """The same rows handed to the Cid object one by one (docs/api.rst): add_data_format_row / add_field_format_row /
+    add_check_row with the cells after the row marker."""
+    from cutplace import interface
+
+    cid = interface.Cid()
+    for row in rows:
+        marker = row[0].strip().lower() if row else ""
+        if marker == "d":
+            cid.add_data_format_row(list(row[1:]))
+        elif marker == "f":
+            cid.add_field_format_row(list(row[1:]))
+        elif marker == "c":
+            cid.add_check_row(list(row[1:]))
     return cid
 
 
@@ -439,6 +456,17 @@ def run(ctx):
                           "fields / checks / header of the loaded CID differ from what the rows declare (order preserved?)",
                           expected=[declared, declared_checks, model.header], observed=[observed, observed_checks, base_sig["settings"].get("header")])
             continue
+        # the same rows handed over through the API: the same fields (with their examples) and checks
+        ctx.count("api-built-cids")
+        try:
+            api_sig = signature(load_through_api(rows))
+        except Exception as error:
+            ctx.violation("C09:sound-cid-refused:through-the-api", {"cid_rows": rows, "expect": "accepted", "what": "through-the-api"}, "rows that Cid.read accepts were refused when added one by one", expected="accepted", observed=error)
+            continue
+        if core.canonical(api_sig["fields"]) != core.canonical(base_sig["fields"]) or core.canonical(api_sig["checks"]) != core.canonical(base_sig["checks"]):
+            ctx.violation("C09:api-built-cid-differs", {"cid_rows": rows, "expect": "accepted", "what": "through-the-api"}, "the same rows added one by one give other fields / examples / checks than Cid.read",
+                          expected=[base_sig["fields"], base_sig["checks"]], observed=[api_sig["fields"], api_sig["checks"]])
+            continue
         # the same field declarations under the other text format, loaded in the same process: what a declaration means
         # must not depend on declarations seen earlier under another format
         sib = sibling(rows, model)
@@ -479,6 +507,21 @@ def run(ctx):
                 bad_rows = bad_rows[:pos] + filler + bad_rows[pos:]
                 line += len(filler)
             check_reject(ctx, name, bad_rows, line)
+            if name.startswith("example-rejected-by-own-field"):
+                # ... and when the rows are added one by one through the API, where the example is judged at once
+                ctx.count("reject.through-the-api")
+                from cutplace import errors
+
+                try:
+                    load_through_api(bad_rows)
+                    ctx.violation("C09:defective-cid-accepted:%s:through-the-api" % name, {"cid_rows": bad_rows, "expect": "refused at row %s" % line, "defect": name + ":through-the-api"},
+                                  "an example its own field does not accept was taken when the rows were added one by one", expected="InterfaceError", observed="accepted")
+                except errors.InterfaceError:
+                    pass
+                except Exception as error:
+                    mod, fn = core.innermost_cutplace_frame(error)
+                    ctx.violation("C09:crash:%s@%s.%s" % (type(error).__name__, mod, fn), {"cid_rows": bad_rows, "expect": "refused at row %s" % line, "defect": name + ":through-the-api"},
+                                  "adding the rows one by one ended in an internal error", observed=error)
 
 
 def replay(ctx, case):
